@@ -380,6 +380,40 @@ def flip_seg(seg: bytes, rng, bit=None):
     return b64u(bytes(raw))
 
 
+def signature_respellings(raw: bytes, alg: str):
+    """Other octet strings that denote the same (R, S) / number and must NOT verify (exact-length rule,
+    no DER, no zero padding): [(note, octets)]."""
+    out = []
+    half = len(raw) // 2
+    if alg.startswith("ES") and raw and len(raw) % 2 == 0:
+        r, s_ = raw[:half], raw[half:]
+        for n in (1, 2, 4):
+            out.append((f"ecdsa-zero-extend-both-{n}", bytes(n) + r + bytes(n) + s_))
+        out.append(("ecdsa-zero-extend-r", b"\x00" + r + s_))
+        z = 0
+        while z < half - 1 and r[z] == 0 and s_[z] == 0:
+            z += 1
+        if z:
+            out.append((f"ecdsa-strip-common-zeros-{z}", r[z:] + s_[z:]))
+
+        def der_int(b):
+            b = b.lstrip(b"\x00") or b"\x00"
+            if b[0] & 0x80:
+                b = b"\x00" + b
+            return b"\x02" + bytes([len(b)]) + b
+        body = der_int(r) + der_int(s_)
+        if len(body) < 128:
+            out.append(("ecdsa-der-encoded", b"\x30" + bytes([len(body)]) + body))
+    elif alg.startswith(("RS", "PS")) and raw:
+        out.append(("rsa-zero-extend", b"\x00" + raw))
+        if raw[0] == 0:
+            out.append(("rsa-strip-zero", raw[1:]))
+    elif alg.startswith("HS") and raw:
+        out.append(("hmac-zero-extend", raw + b"\x00"))
+        out.append(("hmac-prefix-half", raw[:len(raw) // 2]))
+    return out
+
+
 def tamper(case: VCase, rng, others):
     """Derived cases that MUST NOT verify (C01 fault model)."""
     out = []
@@ -409,6 +443,8 @@ def tamper(case: VCase, rng, others):
             mk(h, p, b64u(raw[:-cut]), f"truncate-signature-{cut}")
         mk(h, p, b64u(raw + bytes(rng.randrange(1, 4))), "extend-signature")
         mk(h, p, b"", "empty-signature")
+        for note, sig2 in signature_respellings(raw, str(case.meta.get("header", {}).get("alg", ""))):
+            mk(h, p, b64u(sig2), note)
         # none-downgrade
         nh = dict(case.meta.get("header", {}))
         nh["alg"] = "none"
@@ -443,6 +479,12 @@ def tamper(case: VCase, rng, others):
         mkj(with_first(signature=b64u(raw[:-1]).decode()), "truncate-signature")
         mkj(with_first(signature=b64u(raw + b"\x00").decode()), "extend-signature")
         mkj(with_first(signature=""), "empty-signature")
+        try:
+            alg0 = str(json.loads(b64u_dec(first["protected"].encode())).get("alg", ""))
+        except Exception:  # noqa: BLE001
+            alg0 = ""
+        for note, sig2 in signature_respellings(raw, alg0):
+            mkj(with_first(signature=b64u(sig2).decode()), note)
         v2 = copy.deepcopy(v)
         if k == "j7797":
             v2["payload"] = v2["payload"] + "x"
